@@ -70,6 +70,12 @@ func slice(array, from, to interface{}) interface{} {
 
 	switch v.Kind() {
 	case reflect.Array, reflect.Slice, reflect.String:
+		if v.Kind() == reflect.Array && !v.CanAddr() {
+			// An array taken out of an interface is not addressable and reflect cannot slice it: copy it.
+			cp := reflect.New(v.Type()).Elem()
+			cp.Set(v)
+			v = cp
+		}
 		length := v.Len()
 		a, b := toInt(from), toInt(to)
 
